@@ -51,6 +51,27 @@ class CaseTimeout(Exception):
     pass
 
 
+class Encoded(str):
+    """An input shipped to the worker as enc() text (values whose pickling is not
+    safe: Basis / MeshBasis / Av re-run their constructors when unpickled)."""
+
+
+def _needs_encoding(x, depth=0):
+    ns = repo.namespace()
+    if isinstance(x, (ns["Basis"], ns["MeshBasis"], ns["Av"])):
+        return True
+    if depth < 4 and type(x) in (tuple, list, set, frozenset):
+        return any(_needs_encoding(v, depth + 1) for v in x)
+    if depth < 4 and type(x) is dict:
+        return any(_needs_encoding(v, depth + 1) for v in x.values()) or any(_needs_encoding(v, depth + 1) for v in x.keys())
+    return False
+
+
+def _wrap(items):
+    for x in items:
+        yield Encoded(codec.enc(x)) if _needs_encoding(x) else x
+
+
 def _alarm(_sig, _frm):
     raise CaseTimeout()
 
@@ -64,6 +85,8 @@ def _work(job):
     signal.signal(signal.SIGALRM, _alarm)
     for item in items:
         n += 1
+        if isinstance(item, Encoded):
+            item = codec.dec(item)
         try:
             signal.setitimer(signal.ITIMER_REAL, timeout_s)
             try:
@@ -91,6 +114,18 @@ def _work(job):
             fail["input"] = enc
             fails.append(fail)
     return name, n, nt_count, fails
+
+
+def _watchdog(it, limit_s, name):
+    """A worker that dies (e.g. while unpickling its task) makes Pool wait for ever;
+    turn that into a checker crash (exit 3) instead of a hang."""
+    while True:
+        try:
+            yield it.next(timeout=limit_s)
+        except StopIteration:
+            return
+        except mp.TimeoutError:
+            raise RuntimeError(f"no result from the worker pool within {limit_s}s in check {name} (worker died?)")
 
 
 def _chunks(iterable, size):
@@ -147,9 +182,9 @@ class Ctx:
         st = self.per_check.setdefault(name, {"evaluations": 0, "nontrivial": 0, "failures": 0})
         if rule:
             self.rules.append(f"{name}: {rule}")
-        jobs = ((name, block, timeout_s) for block in _chunks(inputs, chunk))
+        jobs = ((name, block, timeout_s) for block in _chunks(_wrap(inputs), chunk))
         if parallel and NCPU > 1:
-            results = self.pool().imap_unordered(_work, jobs)
+            results = _watchdog(self.pool().imap_unordered(_work, jobs), chunk * timeout_s + 600, name)
         else:
             results = map(_work, jobs)
         first = True
